@@ -176,6 +176,21 @@ def identity_lost(sent, args, kwargs):
     return False
 
 
+class Holder:
+    """an object that owns the scheduler and lends a bound method as a job's callback, as in
+    `sch.once(t, sch.delete_job, args=(job,))`: repr(callback) shows the scheduler, which shows the job"""
+
+    def __init__(self, sch, fn):
+        self.sch = sch
+        self.fn = fn
+
+    def call(self, *args, **kwargs):
+        return self.fn(*args, **kwargs)
+
+    def __repr__(self):
+        return "Holder(%r)" % (self.sch,)
+
+
 class CallbackFailure(Exception):
     pass
 
@@ -193,6 +208,14 @@ class _CountingHandler(logging.Handler):
         self.sink = sink
 
     def emit(self, record):
+        # what logging.StreamHandler.emit does with a record: format it (this evaluates `%r` of the job),
+        # let a RecursionError through (bpo-36272), swallow any other formatting error
+        try:
+            self.format(record)
+        except RecursionError:
+            raise
+        except Exception:  # noqa
+            pass
         self.sink(record)
 
 
@@ -310,6 +333,8 @@ class Impl:
             self.next_id += 1
             c = o[1] if k == "SCHED" else o[2]
             cb = self.make_callback(jid, c, prog)
+            if c.get("bound"):
+                cb = Holder(sch, cb).call
             if k == "SCHED":
                 jkw = self.job_kwargs(c, jid, prog)
                 job = getattr(sch, TYPE_NAMES[c["type"]])(self.timing_arg(c), cb, **jkw)
